@@ -78,8 +78,19 @@ def tree_worker(items, extra, progress):
 
 # ----------------------------------------------------------------------------- primitives correspondence
 
+def kind_of(node):
+    """the kinds of Model/Passes.lean: 1 Paragraph, 2 Section (isinstance, as the pass tests), 0 other."""
+    from mwlib.parser import nodes
+
+    if isinstance(node, nodes.Paragraph):
+        return 1
+    if isinstance(node, nodes.Section):
+        return 2
+    return 0
+
+
 def ser(node, ids):
-    return "%d:%d:%d" % (ids[id(node)], 0, len(node.children)) + "".join(" " + ser(c, ids) for c in node.children)
+    return "%d:%d:%d" % (ids[id(node)], kind_of(node), len(node.children)) + "".join(" " + ser(c, ids) for c in node.children)
 
 
 def prim_worker(items, extra, progress):
@@ -130,6 +141,37 @@ def prim_worker(items, extra, progress):
                 x.parent.remove_child(x)
                 ops.append("r%d" % ids[id(x)])
                 hist["remove"] += 1
+            elif k < 0.58:
+                # a paragraph put behind a section (what fix_paragraphs repairs), then one call or the whole pass
+                from mwlib.parser import nodes as _n
+                from mwlib.parser.treecleaner import TreeCleaner
+
+                if any(isinstance(n, _n.Section) and not n.children for n in cur):
+                    continue        # outside the pass's domain: the parser gives every section its caption child
+                paras = [n for n in cand if isinstance(n, _n.Paragraph)]
+                for para in rng.sample(paras, min(len(paras), rng.randint(1, 3))):
+                    sub = subtree(para)
+                    secs = [n for n in live() if isinstance(n, _n.Section) and n is not t and id(n) not in sub and n.children]
+                    if not secs:
+                        break
+                    sec = rng.choice(secs)
+                    para.move_to(sec)
+                    ops.append("m%d,%d,0" % (ids[id(para)], ids[id(sec)]))
+                    hist["move_to"] += 1
+                if any(isinstance(n, _n.Section) and not n.children for n in live()):
+                    continue
+                tc = TreeCleaner(t, rtl=False)
+                if rng.random() < 0.5:
+                    if tc._fix_paragraphs(t):
+                        hist["_fix_paragraphs moved a paragraph"] += 1
+                    ops.append("p")
+                    hist["_fix_paragraphs (one call)"] += 1
+                else:
+                    tc.fix_paragraphs(t)
+                    ops.append("P")
+                    hist["fix_paragraphs (pass)"] += 1
+                    if tc._fix_paragraphs(t):
+                        viol.append({"why": "fix_paragraphs returned before its fixed point", "text": text, "ops": ops})
             elif k < 0.8:
                 sub = subtree(x)
                 tg = [n for n in cand if id(n) not in sub]
